@@ -360,9 +360,11 @@ def _gen_index(tp: Tape, a):
         return None
     idx = []
     used_array = False
+    used_mask = False
     for s in a.shape:
         k = tp.weighted([("full", 4), ("slice", 8), ("int", 2 if s > 0 else 0),
-                         ("arr", 2 if (s > 0 and not used_array) else 0), ("neg", 3)])
+                         ("arr", 2 if (s > 0 and not used_array) else 0), ("neg", 3),
+                         ("mask", 1 if (0 < s <= 8 and not used_mask) else 0)])
         if k == "full":
             idx.append(["s", None, None, None])
         elif k == "slice":
@@ -377,6 +379,10 @@ def _gen_index(tp: Tape, a):
             idx.append(["s", start, stop, step])
         elif k == "int":
             idx.append(["i", tp.randint(-s, s - 1)])
+        elif k == "mask":
+            # a 1-d boolean mask for this axis (NumPy treats it as the integer array of its True positions)
+            used_mask = True
+            idx.append(["m", [bool(tp.coin(1, 2)) for _ in range(s)]])
         else:
             used_array = True
             n = tp.randint(1, min(6, s + 2))
@@ -387,7 +393,7 @@ def _gen_index(tp: Tape, a):
             while idx and idx[-1] == ["s", None, None, None]:
                 idx.pop()
             idx.append(["e"])
-        elif idx and idx[0] == ["s", None, None, None] and not any(e[0] == "a" for e in idx):
+        elif idx and idx[0] == ["s", None, None, None] and not any(e[0] in ("a", "m") for e in idx):
             while idx and idx[0] == ["s", None, None, None]:
                 idx.pop(0)
             idx.insert(0, ["e"])
@@ -414,6 +420,8 @@ def _mk_index(idx, lib):
             out.append(None)
         elif e[0] == "e":
             out.append(Ellipsis)
+        elif e[0] == "m":
+            out.append(np.asarray(e[1], dtype=bool))
         else:
             out.append(np.asarray(e[1], dtype=np.int64) if lib == "np" else list(e[1]))
     return tuple(out)
